@@ -232,8 +232,12 @@ func DecodePollResponseWithRelayURL(data []byte) (string, string, string, error)
 	}
 
 	natType := message.NAT
-	if natType == "" {
-		natType = "unknown"
+	switch natType {
+	case "":
+		natType = nat.NATUnknown
+	case nat.NATUnknown, nat.NATRestricted, nat.NATUnrestricted:
+	default:
+		return "", "", "", fmt.Errorf("invalid NAT type")
 	}
 
 	return message.Offer, natType, message.RelayURL, err
